@@ -1,7 +1,7 @@
 ------------------------------- MODULE MC_C14 -------------------------------
 EXTENDS JasmSession, JasmPattern, TLC
 \* the rule documents of the C14 universe differ in exactly the state-bearing features
-RuleIds == {"plain", "mfm", "ofm", "range", "range2", "sections", "sections2", "style", "caps", "macros", "xmacros", "xlib_a", "xlib_b", "bigrange", "hexint"}
+RuleIds == {"plain", "mfm", "ofm", "range", "range2", "sections", "sections2", "style", "caps", "macros", "xmacros", "xlib_a", "xlib_b", "bigrange", "hexint", "regcapA", "regcapB", "pmacroA", "pmacroB"}
 CfgTable == [r \in RuleIds |->
     CASE r = "mfm"      -> RuleCfg("T", "-", "-", <<>>, <<>>)
       [] r = "ofm"      -> RuleCfg("F", "T", "-", <<>>, <<>>)
@@ -30,17 +30,20 @@ PatternOf(r) ==
       \* an expensive rule (120 orderings, a regex of more than 16 000 characters) whose result depends on its range
       [] r = "bigrange" -> PAnd(<<PPerm(<<I("push"), PIns("call", <<OLit("valid_addr")>>), I("pop"), I("ret"), I("call")>>)>>)
       [] OTHER          -> PAnd(<<I("@m")>>)                         \* xmacros: @m comes from an extra macro file
+\* regcapA / regcapB (a register capture as group 1 / group 2) and pmacroA / pmacroB (one parameterised macro name with two
+\* different bodies, identical call sites) are written by the harness as raw YAML (harness/props/c14.py, RAW_RULES)
 \* string macros: <<name, body>>
 \* xlib_a / xlib_b: the same extra macro file (a library macro @lib whose body uses @inner), while each rule
 \* file gives @inner its own meaning -- the harness writes these two documents (see harness/props/c14.py)
 MacrosOf(r)  == IF r = "macros" THEN << <<"@m", "push">> >> ELSE <<>>
 XMacrosOf(r) == IF r = "xmacros" THEN << << <<"@m", "pop">> >> >> ELSE <<>>    \* one extra file
 Listing == << Ins("401000", "push", <<"%rbx">>), Ins("401001", "call", <<"401008">>), Ins("401006", "pop", <<"%rbx">>),
-              Ins("401007", "ret", <<>>), Ins("401008", "call", <<"402000">>), Ins("40100d", "ret", <<>>) >>
+              Ins("401007", "ret", <<>>), Ins("401008", "call", <<"402000">>), Ins("40100d", "ret", <<>>),
+              Ins("40100e", "mov", <<"%rbx", "%rax">>), Ins("401011", "xor", <<"%eax", "%eax">>) >>
 \* which inputs an operation on rule r is run on ("text": the listing above; "bin": an object file
 \* with an executable .text and an executable .foo section, built by the harness)
 InputsOf(r) == IF r \in {"sections", "sections2", "plain", "style"} THEN {"text", "bin"} ELSE {"text"}
-RuleSeq == <<"plain", "mfm", "ofm", "range", "range2", "sections", "sections2", "style", "caps", "macros", "xmacros", "xlib_a", "xlib_b", "bigrange", "hexint">>
+RuleSeq == <<"plain", "mfm", "ofm", "range", "range2", "sections", "sections2", "style", "caps", "macros", "xmacros", "xlib_a", "xlib_b", "bigrange", "hexint", "regcapA", "regcapB", "pmacroA", "pmacroB">>
 Export == [rules |-> [n \in DOMAIN RuleSeq |->
                         [id |-> RuleSeq[n], cfg |-> CfgTable[RuleSeq[n]], pattern |-> PatternOf(RuleSeq[n]),
                          macros |-> MacrosOf(RuleSeq[n]), xmacros |-> XMacrosOf(RuleSeq[n]),
